@@ -64,6 +64,13 @@ type Tmpl struct {
 	// IntExactFloat replaces IntAbsLimit by "the value is exactly a float64": |v| <= 2^53
 	// or v is a multiple of 2^11 (every such integer below 2^64 has a 53-bit mantissa).
 	IntExactFloat bool
+	// NegZero lets a float64/float32 number that is zero carry a set sign bit (-0).
+	NegZero bool
+	// JNAllowBad lets a json.Number hold a text that math/big cannot parse (hand-built values
+	// such as json.Number("abc"), or "1e9999999"): selected by the node's JBad flag.
+	JNAllowBad bool
+	// TypedPtrElems lets typed containers have the element types *T and [n]any besides T.
+	TypedPtrElems bool
 	// RootTyped restricts the root to a typed container ([]T, map[string]T with T concrete).
 	RootTyped bool
 	// JNIntegersOnly restricts json.Number representations to integer texts (JK = 0).
@@ -86,6 +93,8 @@ type Node struct {
 	Esel *smt.Term // Int index into Tm.Exps
 	IVal *smt.Term // Int: value when the representation is an integer kind
 	JN   *smt.Term // Int: numerator n of a json.Number n/10^JK
+	NZ   *smt.Term // Bool: a zero float has its sign bit set (templates with NegZero)
+	JBad *smt.Term // Bool: the json.Number text is not a parseable number (nil = never)
 	JK   *smt.Term // Int in [0,3]
 	Rep  *smt.Term // Int: numeric representation selector; const 0 = float64
 	CRep *smt.Term // Int: string/array/object typing selector; const 0 = canonical
@@ -281,6 +290,12 @@ func (n *Node) Float() *SymFloat {
 		}
 	}
 	n.fval = &SymFloat{R: r, M: n.Mant, Esel: n.Esel, Exps: exps, IsInt: isInt}
+	if n.Tm.NegZero {
+		if n.NZ == nil {
+			n.NZ = c.Var(n.Name+".negzero", smt.SBool)
+		}
+		n.fval.NegZero = n.NZ
+	}
 	return n.fval
 }
 
@@ -426,3 +441,21 @@ func (m *Machine) WantInModel(t *smt.Term) { m.extraModel = append(m.extraModel,
 
 // JNTexts returns the json.Number text variables created so far.
 func (m *Machine) JNTexts() map[*smt.Term]*Node { return m.jnTexts }
+
+// NoBadJSONNumber returns the term "no json.Number of the instance is in the unparseable
+// state" (true for templates without JNAllowBad).
+func (m *Machine) NoBadJSONNumber() *smt.Term {
+	c := m.Ctx
+	var cs []*smt.Term
+	names := make([]string, 0, len(m.nodes))
+	for name := range m.nodes {
+		names = append(names, name)
+	}
+	sort.Strings(names)
+	for _, name := range names {
+		if n := m.nodes[name]; n.JBad != nil {
+			cs = append(cs, c.Not(n.JBad))
+		}
+	}
+	return c.And(cs...)
+}
